@@ -102,7 +102,8 @@ func VerifC08IndexKinds() {
 func VerifC08Map() {
 	v := nd.IntIn(0, 9)
 	var m any
-	hasSize := nd.Choice(2) == 1
+	sizeMode := nd.Choice(3) // 0: no size key, 1: size = 5, 2: size key present with a nil value
+	hasSize := sizeMode == 1
 	switch nd.Choice(4) {
 	case 0:
 		mm := map[string]any{"k": v, "j": 7}
@@ -129,6 +130,10 @@ func VerifC08Map() {
 		}
 		m = &mm
 	}
+	if sizeMode == 2 {
+		// a present key wins even when its value is nil (maps whose value type admits nil)
+		m = map[string]any{"k": v, "j": 7, "size": nil}
+	}
 	key := nd.StringFrom(1, "kjz")
 	out, err := vRender("{{ m.k }},{{ m['k'] }},{{ m[key] }},{{ m.zz }},{{ m.size }},{{ n.k }},{{ s.k }},{{ m.k.x }}", Bindings{"m": m, "key": key, "s": 3})
 	nd.Assert(err == nil, "map-no-error")
@@ -142,6 +147,9 @@ func VerifC08Map() {
 	size := "2"
 	if hasSize {
 		size = "5"
+	}
+	if sizeMode == 2 {
+		size = ""
 	}
 	nd.Assert(out == vItoa(v)+","+vItoa(v)+","+byKey+",,"+size+",,,", "map-reference")
 	nd.Reach("C08.map")
